@@ -722,7 +722,7 @@ async fn accept(
         match descriptor.data.limiter().register(addr.ip()) {
             LimitAction::Drop => {
                 drop(stream);
-                return Ok(());
+                continue;
             }
             LimitAction::Send | LimitAction::Passed => {}
         }
